@@ -114,7 +114,17 @@ class ContractInterp(Interp):
             return v
         if n == "implies":
             a = _b(self.truth(self.eval(e.args[0], fr)))
-            if z3.is_false(z3.simplify(a)) or not self.st.feasible(a):
+            if z3.is_false(z3.simplify(a)):
+                return VBool(True)
+            if getattr(self, "quant_depth", 0) > 0:
+                # inside a quantifier the antecedent talks about bound variables: asking the solver whether it is
+                # feasible is expensive and tells nothing; evaluate the consequent directly when that is possible
+                try:
+                    b = _b(self.truth(self.eval(e.args[1], fr)))
+                    return VBool(z3.Implies(a, b))
+                except (PyRaise, Unsupported):
+                    pass
+            if not self.st.feasible(a):
                 return VBool(True)   # antecedent impossible on this path: consequent is not evaluated
             b = _b(self.truth(self.eval(e.args[1], fr)))
             return VBool(z3.Implies(a, b))
@@ -157,7 +167,7 @@ class ContractInterp(Interp):
             x = z3.Const(self.st.fresh_name(var), sort_of_type(t))
             f2 = Frame(fr.finfo, fr, cls=fr.cls)
             f2.vars[var] = VObj(t[1], x) if t[0] in ("obj", "symobj") else wrap(t, x)
-            body = _b(self.truth(self.eval(e.args[2], f2)))
+            body = self._qbody(e.args[2], f2)
             return VBool(z3.ForAll([x], body) if n == "forall" else z3.Exists([x], body))
         if n == "local":
             # local('name', default): a local variable of the function under verification at this program point
@@ -170,15 +180,25 @@ class ContractInterp(Interp):
             x = z3.Const(self.st.fresh_name(var), z3.IntSort())
             f2 = Frame(fr.finfo, fr, cls=fr.cls)
             f2.vars[var] = VInt(x)
-            return VBool(z3.Exists([x], _b(self.truth(self.eval(e.args[1], f2)))))
+            ex = z3.Exists([x], self._qbody(e.args[1], f2))
+            if len(e.args) >= 3:
+                # exists_int(p, body, witness): a proof hint only - `body[p := witness] or exists p. body` is equivalent
+                # to the existential, the first disjunct just spares the solver the search for the instance
+                try:
+                    w = self.eval(e.args[2], fr)
+                    f3 = Frame(fr.finfo, fr, cls=fr.cls)
+                    f3.vars[var] = w
+                    return VBool(z3.Or(_b(self.truth(self.eval(e.args[1], f3))), ex))
+                except (Unsupported, PyRaise):
+                    return VBool(ex)
+            return VBool(ex)
         if n in ("forall_str", "forall_int"):
             var = e.args[0].id
             srt = z3.StringSort() if n == "forall_str" else z3.IntSort()
             x = z3.Const(self.st.fresh_name(var), srt)
             f2 = Frame(fr.finfo, fr, cls=fr.cls)
             f2.vars[var] = VStr(x) if n == "forall_str" else VInt(x)
-            body = _b(self.truth(self.eval(e.args[1], f2)))
-            return VBool(z3.ForAll([x], body))
+            return VBool(z3.ForAll([x], self._qbody(e.args[1], f2)))
         if n == "flag":
             nm = ast.literal_eval(e.args[0])
             v = self.st.ghost.get(nm)
@@ -188,6 +208,14 @@ class ContractInterp(Interp):
             want = ast.literal_eval(e.args[1])
             return VBool(v.kind == want or (isinstance(v, VInt) and v.kind == want))
         raise Unsupported(f"spec form {n}")
+
+    def _qbody(self, node, fr):
+        """body of a quantifier: evaluated with quant_depth > 0 (no ground instantiation of named predicates inside)"""
+        self.quant_depth = getattr(self, "quant_depth", 0) + 1
+        try:
+            return _b(self.truth(self.eval(node, fr)))
+        finally:
+            self.quant_depth -= 1
 
     def lookup_name(self, name, fr):
         if name == "ghost":
@@ -346,7 +374,12 @@ class ContractInterp(Interp):
         if z3.is_true(term):
             st.obligations.append(Obligation(name, "discharged", solver="simplify", t=0.0, path=list(st.taken), where=where))
             return True
-        res, model, solver, smt2 = check_with_fallback(st.solver, z3.Not(term))
+        if st.tainted:
+            st.renew_solver()
+        res, model, solver, smt2 = check_with_fallback(st.solver, z3.Not(term), key=name)
+        from .smt import LAST
+        if LAST["first_unknown"]:
+            st.tainted = True           # this solver has timed out once: it is replaced before the next question
         dt = time.time() - t0
         st.solver_time += dt
         if res == "unsat":
@@ -403,7 +436,28 @@ class ContractInterp(Interp):
     def short(self, c: Contract) -> str:
         return c.fn.split("::")[-1]
 
+    def variant_view(self, c: Contract) -> Contract:
+        """while a variant V of a function is verified, a callee that declares a variant of the same name is applied by
+        that variant's contract (e.g. the 'interference' specs compose: requeue = ack; enqueue)"""
+        vn = getattr(getattr(self, "current_contract", None), "active_variant", None)
+        if vn is None or vn not in c.variants or getattr(c, "active_variant", None) == vn:
+            return c
+        ov = c.variants[vn].get("__override__")
+        if not ov:
+            return c
+        cache = self.__dict__.setdefault("_variant_views", {})
+        key = (c.fn, vn)
+        if key not in cache:
+            import copy as _copy
+            c2 = _copy.copy(c)
+            for k, val in ov.items():
+                setattr(c2, k, val)
+            c2.active_variant = vn
+            cache[key] = c2
+        return cache[key]
+
     def apply_contract(self, c: Contract, am: dict, node, awaited=False) -> V:
+        c = self.variant_view(c)
         st = self.st
         sname = self.short(c)
         if c.bounded:
@@ -504,12 +558,52 @@ class ContractInterp(Interp):
         env["result"] = result
         if c.ensures and not st.feasible(z3.BoolVal(True)):
             raise PathInfeasible()      # the path was already infeasible before this call
+        n_pc = len(st.pc)
+        stage = "?"
         try:
             for _k, ex in c.ensures.items():
+                stage = f"assume {_k}"
                 st.assume(self.spec_bool(ex, env, old))
+            stage = "feasibility after all ensures"
             if c.ensures and not st.feasible(z3.BoolVal(True)):
                 raise PathInfeasible()
         except PathInfeasible:
+            before = st.was_feasible_before(n_pc)
+            if before == "unsat":
+                raise PathInfeasible() from None     # the quick check above had merely timed out: nothing to blame
+            if before == "unknown":
+                from .state import Undecided
+                raise Undecided(f"cannot tell whether the path was feasible before the call of {c.fn} at line "
+                                f"{getattr(node, 'lineno', '?')}") from None
+            try:
+                import os
+                d = os.path.join(os.path.dirname(os.path.dirname(os.path.abspath(__file__))), "out", "undecided")
+                os.makedirs(d, exist_ok=True)
+                with open(os.path.join(d, f"contract_unsat_{os.getpid()}.smt2"), "w") as fh:
+                    fh.write(f"; stage: {stage}\n; path: {st.taken}\n")
+                    fh.write(f"; last_check={st.last_check}\n")
+                    try:
+                        a = st.solver.check()
+                        s2 = z3.Solver(); s2.set("timeout", 5000)
+                        for t in st.pc:
+                            s2.add(t)
+                        b = s2.check()
+                        s3 = z3.Solver(); s3.set("timeout", 5000); s3.from_string(st.solver.to_smt2())
+                        cc = s3.check()
+                        fh.write(f"; again={a} fresh_pc={b} fresh_smt2={cc} npc={len(st.pc)} nass={len(st.solver.assertions())} renewals={st.renewals}\n")
+                        if str(b) == "unsat":
+                            fh.write("; core candidates:\n")
+                            for i, t in enumerate(st.pc):
+                                s4 = z3.Solver(); s4.set("timeout", 3000)
+                                for j, u in enumerate(st.pc):
+                                    if j != i:
+                                        s4.add(u)
+                                fh.write(f";   without #{i}: {s4.check()}\n")
+                    except Exception as exc:  # noqa: BLE001
+                        fh.write(f"; diag failed {exc}\n")
+                    fh.write(st.solver.to_smt2())
+            except Exception:  # noqa: BLE001
+                pass
             raise Unsupported(f"the contract of {c.fn} is unsatisfiable at this call site (line "
                               f"{getattr(node, 'lineno', '?')}): inconsistent postconditions") from None
         if awaited and yields and self.await_hook is not None:
